@@ -3,3 +3,5 @@ import Woodpile.Gen.Consts
 import Woodpile.Model.Arena
 import Woodpile.Model.ReadN
 import Woodpile.Proofs.HcobsSpec
+import Woodpile.Props.C02
+import Woodpile.Props.C07
